@@ -1884,7 +1884,7 @@ REF_FCN static REF_STATUS ref_part_metric_solb(REF_NODE ref_node,
       "bcast dim");
   RSS(ref_mpi_bcast(ref_node_mpi(ref_node), &nnode, 1, REF_GLOB_TYPE),
       "bcast nnode");
-  RSS(ref_mpi_bcast(ref_node_mpi(ref_node), &ldim, 1, REF_GLOB_TYPE),
+  RSS(ref_mpi_bcast(ref_node_mpi(ref_node), &ldim, 1, REF_INT_TYPE),
       "bcast ldim");
 
   if ((nnode != ref_node_n_global(ref_node)) &&
